@@ -68,13 +68,13 @@ type lane struct {
 }
 
 type c37World struct {
-	c     *kit.Check
-	e     *Env
-	a, b  *kit.Chain
-	lanes []*lane
-	val   sdk.ValAddress
-	prop  uint64
-	propEnd time.Time
+	c         *kit.Check
+	e         *Env
+	a, b      *kit.Chain
+	lanes     []*lane
+	val       sdk.ValAddress
+	prop      uint64
+	propEnd   time.Time
 	xferChanB string
 	escrow    sdk.AccAddress
 	curAllow  []string
@@ -614,12 +614,12 @@ func (x *c37World) allowFor(cl cell, msgs []*mspec) []string {
 // running and judging one cell
 
 type verdictInfo struct {
-	AckOK     bool
-	Applied   []bool
-	Auth      bool
-	Why       string
-	AppDiff   []kit.KV
-	SemDiff   []string
+	AckOK   bool
+	Applied []bool
+	Auth    bool
+	Why     string
+	AppDiff []kit.KV
+	SemDiff []string
 }
 
 func (x *c37World) runCell(caseNo int, cl cell, r *kit.Rng) string {
